@@ -122,6 +122,9 @@ def run(F, R):
     # token or nothing ready advances nothing (C03.E1 / E2)
     from .C03 import pop_rule
     pop_rule(F, R, 'P17')
+    # P20: the areas the device is told about lie inside the DMA memory allocated for them, for every queue size (C06.L2)
+    from .C06 import registration_rule as _reg
+    _reg(F, RuleProxy(R, {'L2': 'P20', 'L3': 'P20'}, only=lambda inst: inst.endswith(':areas')), 'L2')
     # P18: unshare only for a matched completion (C03.E15); P19: descriptor flags written fresh on every reuse, so the release path
     # takes the branch of the chain actually submitted (C01.F1)
     from .C03 import release_rule
